@@ -207,3 +207,65 @@ func VerifC13_S7(v *VerifV) {
 		v.Cover("part")
 	}
 }
+
+// VerifC13_S8: the body of a block is bound to its header: starting from a block built by
+// NewBlock (a LastCommit with two signatures, no or one piece of evidence), every change to the
+// body alone - evidence removed, added or exchanged, a commit signature byte changed, a commit
+// signature dropped or its flag changed - leaves Block.Hash() as it was (the header is
+// untouched) and must therefore make ValidateBasic fail. The unchanged block validates.
+func VerifC13_S8(v *VerifV) {
+	verifV = v
+	mkEv := func(tag byte) Evidence {
+		vote := func(b byte) *Vote {
+			return &Vote{Type: kproto.PrecommitType, Height: 4, Round: 1, BlockID: BlockID{Hash: cmn.Hash{b}, PartsHeader: PartSetHeader{Total: 1, Hash: cmn.Hash{b, 1}}},
+				Timestamp: verifTS, ValidatorAddress: cmn.Address{tag}, ValidatorIndex: 0, Signature: []byte{tag, 7}}
+		}
+		return &DuplicateVoteEvidence{VoteA: vote(1), VoteB: vote(2), TotalVotingPower: 30, ValidatorPower: 10, Timestamp: verifTS}
+	}
+	sig := func(i byte) CommitSig {
+		return NewCommitSigForBlock([]byte{i, v.U8("sig-byte")}, cmn.Address{0xA0, i}, verifTS)
+	}
+	prevID := BlockID{Hash: cmn.Hash{9}, PartsHeader: PartSetHeader{Total: 1, Hash: cmn.Hash{9, 1}}}
+	commit := NewCommit(4, 1, prevID, []CommitSig{sig(1), sig(2)})
+	var evs []Evidence
+	withEv := v.Bool("carries-evidence")
+	if withEv {
+		evs = []Evidence{mkEv(1)}
+		v.Cover("carries-evidence")
+	}
+	header := &Header{Height: 5, Time: verifTS, LastBlockID: prevID, ProposerAddress: cmn.Address{0xA0, 1}}
+	b := NewBlock(header, nil, commit, evs, nil)
+	v.Assert(b.ValidateBasic(nil) == nil, "C13.body.consistent-block-fails-basic-validation")
+	h0 := b.Hash()
+	// the same header with another body
+	c2 := CopyCommit(commit)
+	ev2 := append([]Evidence(nil), evs...)
+	switch v.Choice("mutation", 6) {
+	case 0:
+		if !withEv {
+			v.Assume(false)
+		}
+		ev2 = nil
+		v.Cover("evidence-removed")
+	case 1:
+		ev2 = append(ev2, mkEv(2))
+	case 2:
+		if !withEv {
+			v.Assume(false)
+		}
+		ev2 = []Evidence{mkEv(3)}
+	case 3:
+		nb := v.U8("new-sig-byte")
+		v.Assume(nb != c2.Signatures[0].Signature[1])
+		c2.Signatures[0].Signature = []byte{1, nb}
+		v.Cover("commit-signature-changed")
+	case 4:
+		c2.Signatures = c2.Signatures[:1]
+	case 5:
+		c2.Signatures[1] = NewCommitSigAbsent()
+	}
+	c2.hash = cmn.Hash{} // a received commit has no cached hash
+	m := &Block{header: CopyHeader(b.header), lastCommit: c2, evidence: &EvidenceData{Evidence: ev2}}
+	v.Assert(m.Hash() == h0, "C13.body.setup-header-changed")
+	v.Assert(m.ValidateBasic(nil) != nil, "C13.body.changed-body-accepted-under-the-same-hash")
+}
